@@ -84,6 +84,47 @@ theorem balanced_history (ev : St → Sx → Res) (hb : Balanced ev) :
       simp only [he] at hr
       exact ih st1 st' (hb st e v st1 h he) hr
 
+/-! ## the environment component of balance, unconditionally -/
+
+/-- the state of a fresh interpreter is well formed -/
+theorem init_ok : Glob.Ok Wire.initSt := by
+  refine ⟨?_, by simp [Wire.initSt]⟩
+  intro i f p hf hp
+  cases i with
+  | zero =>
+    simp only [Wire.initSt, List.getElem?_toArray, List.getElem?_cons_zero, Option.some.injEq] at hf
+    subst hf
+    simp at hp
+  | succ i => simp [Wire.initSt] at hf
+
+/-- **every completed top-level evaluation — any program, any pass configuration — returns to the environment it
+started in, and leaves a well-formed frame heap**; by induction over the history this holds after any number of
+evaluations (the environment part of `Balanced` is a theorem of the model, not a premise) -/
+theorem history_env_balanced (m : Mode) (n : Nat) :
+    ∀ (forms : List Sx) (st st' : St), Glob.Ok st → runForms (walEval m n) st forms = some st' →
+      Glob.Ok st' ∧ st'.env = st.env := by
+  intro forms
+  induction forms with
+  | nil => intro st st' h hr; simp [runForms] at hr; subst hr; exact ⟨h, rfl⟩
+  | cons e r ih =>
+    intro st st' h hr
+    simp only [runForms] at hr
+    cases he : walEval m n st e with
+    | error er => simp [he] at hr
+    | ok p =>
+      obtain ⟨v, st1⟩ := p
+      simp only [he] at hr
+      obtain ⟨h1, e1, _⟩ := Glob.walEval_P m n st st1 e v he h
+      obtain ⟨h2, e2⟩ := ih st1 st' h1 hr
+      exact ⟨h2, e2.trans e1⟩
+
+/-- from a fresh interpreter: after any history of completed evaluations the global frame is current — a new
+top-level `define` lands in the global frame (`define_global_at_top`) -/
+theorem history_from_fresh_at_global (m : Mode) (n : Nat) (forms : List Sx) (st' : St)
+    (h : runForms (walEval m n) Wire.initSt forms = some st') : st'.env = 0 ∧ Glob.Ok st' := by
+  obtain ⟨h1, h2⟩ := history_env_balanced m n forms Wire.initSt st' init_ok h
+  exact ⟨h2, h1⟩
+
 /-- **new definitions are global**: in the top-level context `define` binds in frame 0 -/
 theorem define_global_at_top (rec : St → Sx → Res) (st st1 st2 : St) (n : String) (k : Option Nat) (e v : Sx)
     (he : rec st e = .ok (v, st1)) (henv : st1.env = 0) (hd : st1.defineIn 0 n v = some st2) :
